@@ -629,6 +629,23 @@ fn replay_file(p: &Path, verbose: bool) -> i32 {
                 }
             }
         }
+        "recsim" if v.get("tree").is_some() => {
+            let c: recsim::tree::TreeCase = serde_json::from_value(v["tree"].clone()).unwrap_or_else(|e| harness_error(&format!("bad recsim tree replay: {}", e)));
+            match recsim::tree::run_case(&c) {
+                (_, Some(t), _) => {
+                    if verbose {
+                        println!("reproduced property=C12 class={}\n token tree case={:?}\n unrolled/expected={}\n recursive={}", t.class, c, t.expected, t.observed);
+                    }
+                    1
+                }
+                _ => {
+                    if verbose {
+                        println!("not reproduced");
+                    }
+                    0
+                }
+            }
+        }
         "recsim" => {
             let rp: recsim::Replay = serde_json::from_value(v).unwrap_or_else(|e| harness_error(&format!("bad recsim replay: {}", e)));
             match recsim::replay(&rp) {
@@ -741,6 +758,55 @@ fn minimise_file(src: &Path, dst: &Path) {
             let rp: srcsim::Replay = serde_json::from_value(v).unwrap();
             let m = srcsim::minimise(&rp);
             std::fs::write(dst, serde_json::to_vec_pretty(&m).unwrap()).unwrap();
+        }
+        "recsim" if v.get("tree").is_some() => {
+            // shrink the tree case: smaller depth, no siblings, no memo, plain lifecycle
+            let mut best: recsim::tree::TreeCase = serde_json::from_value(v["tree"].clone()).unwrap();
+            let fails = |c: &recsim::tree::TreeCase| matches!(recsim::tree::run_case(c), (_, Some(_), _));
+            let mut progress = true;
+            while progress {
+                progress = false;
+                let mut cands: Vec<recsim::tree::TreeCase> = Vec::new();
+                for d in [best.depth / 2, best.depth.saturating_sub(1)] {
+                    if d < best.depth {
+                        let mut c = best.clone();
+                        c.depth = d;
+                        c.unroll = d <= 1500;
+                        cands.push(c);
+                    }
+                }
+                let mut c = best.clone();
+                c.before = 0;
+                c.after = 0;
+                cands.push(c);
+                let mut c = best.clone();
+                c.memo = false;
+                cands.push(c);
+                let mut c = best.clone();
+                c.vary = false;
+                cands.push(c);
+                let mut c = best.clone();
+                c.life = recsim::Life::Value;
+                cands.push(c);
+                let mut c = best.clone();
+                c.bad_leaf = false;
+                cands.push(c);
+                for c in cands {
+                    if c != best && fails(&c) {
+                        best = c;
+                        progress = true;
+                        break;
+                    }
+                }
+            }
+            let mut d = v.clone();
+            d["tree"] = serde_json::to_value(&best).unwrap();
+            if let (_, Some(t), _) = recsim::tree::run_case(&best) {
+                d["class"] = json!(t.class);
+                d["expected"] = json!(t.expected);
+                d["observed"] = json!(t.observed);
+            }
+            std::fs::write(dst, serde_json::to_vec_pretty(&d).unwrap()).unwrap();
         }
         "recsim" => {
             let rp: recsim::Replay = serde_json::from_value(v).unwrap();
